@@ -22,6 +22,9 @@ def rule_s5(chk: Check, ir):
         chk.require(bool(consuming), "S5-span-nonempty", key, str(a.pos),
                     f"`{a}` can succeed without consuming a token, yet its action asks for a span: the end would be taken "
                     f"from a token *before* the start token (end < start)")
+
+
+def rule_adjusted_location(chk: Check, ir, rule_id: str = "S5-adjusted-location"):
     # hand-adjusted locations: `locs["col_offset"] += n` skips n characters at the start of the span.  That is right only
     # where the span starts with a token of exactly that width which is *not* part of the value being located.
     sub = parse_py(repo.SUBHEADER)
@@ -38,10 +41,10 @@ def rule_s5(chk: Check, ir):
                 isinstance(n, ast.Call) and isinstance(n.func, ast.Attribute) and n.func.attr == fn.name
                 for n in ast.walk(a.action))]
             if not callers:
-                chk.count("S5-adjusted-location")
-                chk.ok("S5-adjusted-location", f"{fn.name}:{norm_stmt(st)}:uncalled", f"{repo.SUBHEADER}:{st.lineno}")
+                chk.count(rule_id)
+                chk.ok(rule_id, f"{fn.name}:{norm_stmt(st)}:uncalled", f"{repo.SUBHEADER}:{st.lineno}")
             for r, k, a in callers:
-                chk.count("S5-adjusted-location")
+                chk.count(rule_id)
                 key = f"{k}->{fn.name}:{norm_stmt(st)}"
                 call = next(n for n in ast.walk(a.action) if isinstance(n, ast.Call) and isinstance(n.func, ast.Attribute)
                             and n.func.attr == fn.name)
@@ -50,7 +53,7 @@ def rule_s5(chk: Check, ir):
                 width = _last_width(ir, first.item) if first is not None else None
                 ok = (shift is not None and st.target.slice.value == "col_offset" and first is not None
                       and (first.name is None or first.name not in passed) and width == shift)
-                chk.require(ok, "S5-adjusted-location", key, str(a.pos),
+                chk.require(ok, rule_id, key, str(a.pos),
                             f"`{fn.name}` shifts `{st.target.slice.value}` by {shift}; in `{a}` the span starts with "
                             f"`{first}` (width {width}{', which is itself part of the located value' if first is not None and first.name in passed else ''}), "
                             f"so the reported start is off and adjacency with the preceding token is lost")
@@ -126,4 +129,3 @@ def run(chk: Check):
     chk.floor("S3-ctx", 150)
     chk.floor("S4-location", 180)
     chk.floor("S5-span-nonempty", 150)
-    chk.floor("S5-adjusted-location", 1)
